@@ -46,7 +46,9 @@ def run(rep, tier, seed, replay=None):
     # exact-key hook, whole trees, layouts + query / hit / measure counts; reports how many trees have no lossy hit (the class on which
     # C01_real_equals_exact_when_no_lossy_hit_partial transfers the exact-key theorems) and how many of those differ from the exact run
     from . import _blockreal
-    _blockreal.real_tree_k(rep, 'C01', binp, seed + 101, 300 if tier == 'quick' else 3000)
+    esc = bool([c for c in changed if c.startswith('gen_cache:') or 'compute_cached_layout' in c or 'compute_child_layout' in c
+                or 'compute_hidden_layout' in c])
+    _blockreal.real_tree_k(rep, 'C01', binp, seed + 101, 3000 if tier != 'quick' or esc else 300)
     _blockreal.lossy_witness(rep, binp)
     # ---- search
     n = 600 if tier == 'quick' and not rep.broken else 6000
